@@ -67,7 +67,29 @@ theorem local_taskEdges (d : Desc) (m t : Nat) (td : TaskD) :
   | sleep s => simp [localOk, good, rank, fld]
   | recv b => cases b <;> simp [localOk, good, rank, fld]
 
-theorem local_modEdges (d : Desc) (m : Nat) (md : ModD) (hm : m < d.mods.length) :
+theorem local_afnEdges (d : Desc) (m t : Nat) (a : Option AfnD) :
+    (afnEdges false m t a).all (localOk d) = true := by
+  cases a with
+  | none => simp [afnEdges]
+  | some a =>
+    unfold afnEdges
+    simp only [List.all_cons, List.all_append, Bool.and_eq_true]
+    refine ⟨by simp [localOk, good, rank, fld], ?_, ?_⟩
+    · rw [List.all_flatMap, List.all_eq_true]
+      rintro ⟨k, msg⟩ _
+      simp only [List.all_cons, local_msgEdges, Bool.and_true]
+      simp [localOk, good, rank, fld] <;> arith
+    · cases a.alive
+      · simp
+      · simp only [if_true, List.all_append, Bool.and_eq_true]
+        refine ⟨⟨⟨by simp [localOk, good, rank, fld], ?_⟩, by simp⟩, ?_⟩
+        · cases a.sleeping <;> simp [localOk, good, rank, fld]
+        · rw [List.all_flatMap, List.all_eq_true]
+          rintro ⟨k, msg⟩ _
+          simp only [List.all_cons, local_msgEdges, Bool.and_true]
+          simp [localOk, good, rank, fld] <;> arith
+
+theorem local_modEdges (d : Desc) (ht : d.taskCtx = false) (m : Nat) (md : ModD) (hm : m < d.mods.length) :
     (modEdges d m md).all (localOk d) = true := by
   have hmin : min m d.mods.length = m := by omega
   unfold modEdges
@@ -88,8 +110,8 @@ theorem local_modEdges (d : Desc) (m : Nat) (md : ModD) (hm : m < d.mods.length)
   · simp [localOk, good, rank, fld]
   · simp [List.all_flatMap, localOk, good, rank, fld]
   · split
-    · simp only [List.all_cons, List.all_flatMap, Bool.and_eq_true]
-      refine ⟨by simp [localOk, good, rank, fld], ?_⟩
+    · simp only [List.all_cons, List.all_append, List.all_flatMap, Bool.and_eq_true]
+      refine ⟨by simp [localOk, good, rank, fld], ?_, by rw [ht]; exact local_afnEdges d m _ _⟩
       rw [List.all_eq_true]
       rintro ⟨t, td⟩ _
       exact local_taskEdges d m t td
@@ -121,7 +143,8 @@ theorem local_linkEdges (d : Desc) (hk : d.keepChan = false) (c : Nat) (l : Link
       simp [localOk, good, rank, fld]
   · simp
 
-theorem local_mkEdges (d : Desc) (hk : d.keepChan = false) : (mkEdges d).all (localOk d) = true := by
+theorem local_mkEdges (d : Desc) (hk : d.keepChan = false) (ht : d.taskCtx = false) :
+    (mkEdges d).all (localOk d) = true := by
   unfold mkEdges
   simp only [List.all_append, Bool.and_eq_true]
   refine ⟨⟨⟨⟨⟨?_, ?_⟩, ?_⟩, ?_⟩, ?_⟩, ?_⟩
@@ -133,7 +156,7 @@ theorem local_mkEdges (d : Desc) (hk : d.keepChan = false) : (mkEdges d).all (lo
     rintro ⟨m, md⟩ hmem
     have := (mem_enum d.mods m md).mp hmem
     have hm : m < d.mods.length := (List.getElem?_eq_some_iff.mp this).1
-    exact local_modEdges d m md hm
+    exact local_modEdges d ht m md hm
   · rw [List.all_flatMap, List.all_eq_true]
     rintro ⟨c, l⟩ _
     exact local_linkEdges d hk c l
@@ -141,9 +164,10 @@ theorem local_mkEdges (d : Desc) (hk : d.keepChan = false) : (mkEdges d).all (lo
 
 /-- the rank function is a witness that the strong edges which `dissolve_paths` does not cut are
     well-founded; `wired` adds the two closure conditions that mention other edges -/
-theorem ranked_of_wired (d : Desc) (hk : d.keepChan = false) (hw : wired d = true) :
+theorem ranked_of_wired (d : Desc) (hk : d.keepChan = false) (ht : d.taskCtx = false)
+    (hw : wired d = true) :
     Ranked nidSem (mkEdges d) roots (fun v => good v = true) (rank d) := by
-  have hl := List.all_eq_true.mp (local_mkEdges d hk)
+  have hl := List.all_eq_true.mp (local_mkEdges d hk ht)
   have hw' := List.all_eq_true.mp hw
   refine ⟨?_, ?_, ?_, ?_, ?_⟩
   · intro e he hg
